@@ -39,29 +39,50 @@ def _more_files():
         pass
 
 
-def run_harness(cases_path, out_path, workdir, args=(), shards=SHARDS, mode='engine'):
-    """shard the case file over fresh engines; concatenates the outputs in case order"""
+def run_harness(cases_path, out_path, workdir, args=(), shards=SHARDS, mode='engine', per_proc=None):
+    """shard the case file over fresh engines; concatenates the outputs in case order.  With `per_proc` the
+    cases are cut into chunks of that size, each run by its own harness process, `shards` processes at a time
+    (the restart variant opens a new SQLite pool per restart and the engine never releases the old one: a process
+    that lives for hundreds of cases runs out of file descriptors)"""
     lines = [l for l in open(cases_path) if l.strip()]
-    shards = max(1, min(shards, len(lines)))
-    procs = []
-    for s in range(shards):
-        part = lines[s::shards]
+    if per_proc:
+        parts = [lines[k:k + per_proc] for k in range(0, len(lines), per_proc)] or [[]]
+    else:
+        shards = max(1, min(shards, len(lines)))
+        parts = [lines[s::shards] for s in range(shards)]
+    jobs = []
+    for s, part in enumerate(parts):
         sd = os.path.join(workdir, f'shard{s}')
         os.makedirs(sd, exist_ok=True)
         cp = os.path.join(sd, 'cases.jsonl')
         open(cp, 'w').writelines(part)
-        op = os.path.join(sd, 'out.txt')
-        p = subprocess.Popen([HARNESS_BIN, mode, cp, op, sd] + list(args), cwd=sd, env=ENV, stdout=subprocess.DEVNULL, stderr=subprocess.PIPE, preexec_fn=_more_files)
-        procs.append((p, op, sd))
+        jobs.append((cp, os.path.join(sd, 'out.txt'), sd))
     errs = []
+    running, todo, done = [], list(jobs), {}
+    while todo or running:
+        while todo and len(running) < max(1, shards):
+            cp, op, sd = todo.pop(0)
+            errf = open(os.path.join(sd, 'stderr.txt'), 'wb')
+            p = subprocess.Popen([HARNESS_BIN, mode, cp, op, sd] + list(args), cwd=sd, env=ENV, stdout=subprocess.DEVNULL, stderr=errf, preexec_fn=_more_files)
+            running.append((p, op, sd, time.time(), errf))
+        still = []
+        for p, op, sd, t0, errf in running:
+            rc = p.poll()
+            if rc is None and time.time() - t0 > 3000:
+                p.kill(); p.wait(); rc = -9
+            if rc is None:
+                still.append((p, op, sd, t0, errf))
+                continue
+            errf.close()
+            if rc != 0:
+                err = open(os.path.join(sd, 'stderr.txt'), 'rb').read()
+                errs.append(f"{sd}: rc={rc} {err[-400:].decode(errors='replace')}")
+            done[sd] = op
+        running = still
+        if running:
+            time.sleep(0.02)
     with open(out_path, 'w') as out:
-        for p, op, sd in procs:
-            try:
-                _, err = p.communicate(timeout=3000)
-            except subprocess.TimeoutExpired:
-                p.kill(); err = b'timeout'
-            if p.returncode != 0:
-                errs.append(f"{sd}: rc={p.returncode} {err[-400:].decode(errors='replace')}")
+        for cp, op, sd in jobs:
             if os.path.exists(op):
                 out.write(open(op, errors='replace').read())
     return errs
@@ -145,7 +166,7 @@ def variant(res, name, flags):
     wd = os.path.join(res['dir'], f'var-{name}')
     shutil.rmtree(wd, ignore_errors=True)
     os.makedirs(wd)
-    errs = run_harness(res['cases'], out, wd, tuple(flags))
+    errs = run_harness(res['cases'], out, wd, tuple(flags), per_proc=(40 if 'restart' in flags else None))
     shutil.rmtree(wd, ignore_errors=True)
     json.dump(errs, open(done, 'w'))
     return out, errs
